@@ -2,6 +2,7 @@ package main
 
 import (
 	"fmt"
+	"math"
 	"strings"
 	"time"
 
@@ -10,11 +11,19 @@ import (
 
 // C04 wire (mirror of coq/theories/C04_Wire.v)
 //
-//	input    = cmp :: concat [op a b]     cmp 0: ascending (a<b), else descending (a>b)
+//	input    = cmp :: concat [op a b]     cmp 0: ascending (a<b), 2: ascending over EXTREME keys,
+//	                                      3: descending over extreme keys, anything else: descending (a>b)
 //	           op 0 Upsert a b | 1 Delete a | 2 Get a | 3 Size | 4 Traverse
 //	observed = per-op results ++ [final Size] ++ final Traverse
 //	           Upsert [0] ([2] panic) | Delete [0] / [1 1] | Get [0 key val] / [1 1]
 //	           Size [n] | Traverse n k1 v1 .. kn vn ([3] hang, [2] panic)
+//
+// Extreme keys (cmp 2, 3): the model runner reads 63-bit integers, so MinInt64, MaxInt64 and
+// +-2^62 cannot be written on the wire.  In these modes a wire key k in 0..4999 stands for the real
+// key c04Ext(k) handed to the tree (five windows of 1000 consecutive integers: around 0, up to
+// MaxInt64, from MinInt64, around 2^62, around -2^62); keys coming back from the tree are mapped
+// back with c04Unext.  The Coq side runs the model on the wire keys under the comparator pulled
+// back along the same (injective) map, C04_Wire.ext_key.
 const (
 	c04Upsert = iota
 	c04Delete
@@ -24,18 +33,63 @@ const (
 )
 
 func c04Comp(c int) func(a, b int) bool {
-	if c == 0 {
+	if c == 0 || c == 2 {
 		return func(a, b int) bool { return a < b }
 	}
 	return func(a, b int) bool { return a > b }
 }
 
-func c04Trav(t *bstree.BsTree[int, int]) []int64 {
+const (
+	c04MaxInt = int64(math.MaxInt64)
+	c04MinInt = int64(math.MinInt64)
+	c04P62    = int64(1) << 62
+)
+
+func c04Extreme(c int) bool { return c == 2 || c == 3 }
+
+// c04Ext: wire key 0..4999 -> real key (mirror of C04_Wire.ext_key); identity elsewhere.
+func c04Ext(k int64) int64 {
+	if k < 0 || k >= 5000 {
+		return k
+	}
+	r := k % 1000
+	switch k / 1000 {
+	case 0:
+		return r - 500
+	case 1:
+		return c04MaxInt - 999 + r
+	case 2:
+		return c04MinInt + r
+	case 3:
+		return c04P62 - 500 + r
+	default:
+		return -c04P62 - 500 + r
+	}
+}
+
+// c04Unext: the inverse on the five windows.
+func c04Unext(x int64) int64 {
+	switch {
+	case x >= -500 && x < 500:
+		return x + 500
+	case x >= c04MaxInt-999:
+		return 1000 + (x - (c04MaxInt - 999))
+	case x <= c04MinInt+999:
+		return 2000 + (x - c04MinInt)
+	case x >= c04P62-500 && x < c04P62+500:
+		return 3000 + (x - (c04P62 - 500))
+	case x >= -c04P62-500 && x < -c04P62+500:
+		return 4000 + (x - (-c04P62 - 500))
+	}
+	return x
+}
+
+func c04Trav(t *bstree.BsTree[int, int], back func(int64) int64) []int64 {
 	var items []int64
 	n := 0
-	panicked, hung := tryTimeout(5*time.Second, func() {
+	panicked, hung := tryTimeout(20*time.Second, func() {
 		t.Traverse(func(it bstree.Item[int, int]) {
-			items = append(items, int64(it.Key), int64(it.Val))
+			items = append(items, back(int64(it.Key)), int64(it.Val))
 			n++
 		})
 	})
@@ -53,9 +107,18 @@ func execC04(in []int64) []int64 {
 		return []int64{-1}
 	}
 	t := bstree.New[int, int](c04Comp(int(in[0])))
+	fwd, back := func(k int64) int64 { return k }, func(k int64) int64 { return k }
+	if c04Extreme(int(in[0])) {
+		for i := 1; i+2 < len(in); i += 3 {
+			if in[i] <= c04Get && (in[i+1] < 0 || in[i+1] >= 5000) {
+				return []int64{-1} // outside the windows of the extreme-key modes
+			}
+		}
+		fwd, back = c04Ext, c04Unext
+	}
 	var out []int64
 	for i := 1; i+2 < len(in); i += 3 {
-		op, a, b := int(in[i]), int(in[i+1]), int(in[i+2])
+		op, a, b := int(in[i]), int(fwd(in[i+1])), int(in[i+2])
 		var res []int64
 		panicked := false
 		switch op {
@@ -75,13 +138,13 @@ func execC04(in []int64) []int64 {
 				if err != nil {
 					res = resErr(1)
 				} else {
-					res = resOk(int64(it.Key), int64(it.Val))
+					res = resOk(back(int64(it.Key)), int64(it.Val))
 				}
 			})
 		case c04Size:
 			panicked = try(func() { res = []int64{int64(t.Size())} })
 		case c04Traverse:
-			res = c04Trav(t)
+			res = c04Trav(t, back)
 		default:
 			return []int64{-1}
 		}
@@ -93,7 +156,7 @@ func execC04(in []int64) []int64 {
 	size := int64(-777)
 	try(func() { size = int64(t.Size()) })
 	out = append(out, size)
-	out = append(out, c04Trav(t)...)
+	out = append(out, c04Trav(t, back)...)
 	return out
 }
 
@@ -102,19 +165,28 @@ func describeC04(in []int64) string {
 		return ""
 	}
 	var sb strings.Builder
-	if in[0] == 0 {
+	if in[0] == 0 || in[0] == 2 {
 		sb.WriteString("New(a<b)")
 	} else {
 		sb.WriteString("New(a>b)")
 	}
+	key := func(k int64) int64 { return k }
+	if c04Extreme(int(in[0])) {
+		key = c04Ext
+	}
+	nshown := 0
 	for i := 1; i+2 < len(in); i += 3 {
+		if nshown++; nshown > 60 {
+			fmt.Fprintf(&sb, "; ... (%d operations)", (len(in)-1)/3)
+			break
+		}
 		switch in[i] {
 		case c04Upsert:
-			fmt.Fprintf(&sb, "; Upsert(%d,%d)", in[i+1], in[i+2])
+			fmt.Fprintf(&sb, "; Upsert(%d,%d)", key(in[i+1]), in[i+2])
 		case c04Delete:
-			fmt.Fprintf(&sb, "; Delete(%d)", in[i+1])
+			fmt.Fprintf(&sb, "; Delete(%d)", key(in[i+1]))
 		case c04Get:
-			fmt.Fprintf(&sb, "; Get(%d)", in[i+1])
+			fmt.Fprintf(&sb, "; Get(%d)", key(in[i+1]))
 		case c04Size:
 			sb.WriteString("; Size()")
 		case c04Traverse:
@@ -190,13 +262,34 @@ func (n *c04Shadow) remove(k int, less func(a, b int) bool) (*c04Shadow, string,
 // of a two-child node that is followed by a Get of that node's successor key.
 func c04Classify(g *Gen, in []int64) bool {
 	less := c04Comp(int(in[0]))
+	ext := c04Extreme(int(in[0]))
 	var root *c04Shadow
 	pendingSucc := map[int]bool{}
 	nontrivial := false
 	nops := 0
+	live, maxLive := map[int]bool{}, 0
 	for i := 1; i+2 < len(in); i += 3 {
 		op, a := int(in[i]), int(in[i+1])
+		if ext {
+			a = int(c04Ext(int64(a)))
+		}
 		nops++
+		switch op {
+		case c04Upsert:
+			if live[a] {
+				g.Count("Upsert of a present key (overwrite)")
+			}
+			live[a] = true
+			if len(live) > maxLive {
+				maxLive = len(live)
+			}
+		case c04Delete:
+			delete(live, a)
+		case c04Traverse:
+			if len(live) >= 256 {
+				g.Count("Traverse of a tree with >= 256 keys")
+			}
+		}
 		switch op {
 		case c04Upsert:
 			g.Count("op:Upsert")
@@ -229,8 +322,21 @@ func c04Classify(g *Gen, in []int64) bool {
 		g.Count(fmt.Sprintf("len:%d", nops))
 	case nops <= 64:
 		g.Count("len:9-64")
+	case nops <= 1000:
+		g.Count("len:65-1000")
 	default:
-		g.Count("len:65+")
+		g.Count("len:1001+")
+	}
+	switch {
+	case maxLive <= 5:
+	case maxLive <= 64:
+		g.Count("peak keys:6-64")
+	case maxLive < 256:
+		g.Count("peak keys:65-255")
+	case maxLive <= 1000:
+		g.Count("peak keys:256-1000")
+	default:
+		g.Count("peak keys:1001+")
 	}
 	if nontrivial {
 		g.Count("two-child delete followed by successor lookup")
@@ -329,6 +435,75 @@ func genC04(g *Gen) {
 			})
 		}
 	}
+	// --- exhaustive D: a read in the middle.  Every insertion order of every
+	// subset of 0..4, then ONE read (Get k, Size or Traverse; thorough: two),
+	// one Delete, at most one re-Upsert, then Get of every key.  (State kept
+	// by read operations — a remembered node, a cached count — goes stale
+	// exactly on such histories.)
+	nreads := nk + 2
+	for cmp := 0; cmp <= 1; cmp++ {
+		for _, p := range perms {
+			if len(p) < 2 {
+				continue
+			}
+			seqsExact(nreads, g.Pick(1, 2), func(reads []int) {
+				for d := 0; d < nk; d++ {
+					for re := -1; re < nk; re++ {
+						w := []int64{int64(cmp)}
+						i := 0
+						for _, k := range p {
+							w = append(w, c04Upsert, int64(k), int64(val(i, k)))
+							i++
+						}
+						for _, r := range reads {
+							switch {
+							case r < nk:
+								w = append(w, c04Get, int64(r), 0)
+							case r == nk:
+								w = append(w, c04Size, 0, 0)
+							default:
+								w = append(w, c04Traverse, 0, 0)
+							}
+						}
+						w = append(w, c04Delete, int64(d), 0)
+						i++
+						if re >= 0 {
+							w = append(w, c04Upsert, int64(re), int64(val(i, re)))
+						}
+						emit("exhaustive", probes(w))
+					}
+				}
+			})
+		}
+	}
+	// --- exhaustive E: delete / re-insert / delete again: every insertion
+	// order of every subset of 0..4 with >= 2 keys, Delete d1, Upsert u,
+	// Delete d2 (thorough: a second Upsert u2), Get of every key.
+	for cmp := 0; cmp <= 1; cmp++ {
+		for _, p := range perms {
+			if len(p) < 2 {
+				continue
+			}
+			seqsExact(nk, g.Pick(3, 4), func(s []int) {
+				w := []int64{int64(cmp)}
+				i := 0
+				for _, k := range p {
+					w = append(w, c04Upsert, int64(k), int64(val(i, k)))
+					i++
+				}
+				w = append(w, c04Delete, int64(s[0]), 0)
+				i++
+				w = append(w, c04Upsert, int64(s[1]), int64(val(i, s[1])))
+				i++
+				w = append(w, c04Delete, int64(s[2]), 0)
+				i++
+				if len(s) > 3 {
+					w = append(w, c04Upsert, int64(s[3]), int64(val(i, s[3])))
+				}
+				emit("exhaustive", probes(w))
+			})
+		}
+	}
 	g.Exhaustive("exhaustive")
 
 	// --- seeded random: length-300 histories over keys 0..63; the tree is
@@ -394,6 +569,196 @@ func genC04(g *Gen) {
 		emit("random", w)
 	}
 
+	// --- large: trees of 100..2000 keys (thorough: ..5000) built in sorted,
+	// reversed, zig-zag (lo, hi, lo+1, hi-1, ..: one path that turns at every
+	// node) and random insertion order — the first three are degenerate, depth =
+	// number of keys — under both comparators; three scripts per tree:
+	//   half:    Size, Traverse, Get of every key (and of two absent ones);
+	//            Delete of every second key (by rank); Size, Traverse, Get of
+	//            every key; re-Upsert of the deleted keys in reverse order with new
+	//            values; Size, Traverse, Get of every key (above 513 keys the two
+	//            intermediate look-up rounds take 96 spread keys instead of all)
+	//   forward: Delete in insertion order, Size and Traverse at four checkpoints
+	//            and on the empty tree, Get of 16 spread keys at each; refill of 3 keys
+	//   reverse: the same, deleting in reverse insertion order
+	// Smallest sizes first (the evidence keeps the first samples of a stream).
+	for _, n := range []int{128, 255, 256, 257, 511, 512, 513, 1023, 1024, 1025} {
+		for cmp := 0; cmp <= 1; cmp++ {
+			w := []int64{int64(cmp)}
+			for i, r := range g.Rng.Perm(n) {
+				w = append(w, c04Upsert, int64(r), int64(i+1))
+			}
+			g.Count("large:count boundary (build, Size, Traverse)")
+			emit("large", append(w, c04Size, 0, 0, c04Traverse, 0, 0))
+		}
+	}
+	type c04Large struct {
+		n       int
+		order   int // 0 sorted 1 reversed 2 zig-zag 3 random
+		cmps    int // bit 0: ascending comparator, bit 1: descending
+		scripts int // bit 0: half, bit 1: forward, bit 2: reverse
+	}
+	var larges []c04Large
+	for _, n := range []int{100, 256, 257, 513} {
+		for order := 0; order < 4; order++ {
+			larges = append(larges, c04Large{n, order, 3, 7})
+		}
+	}
+	if g.Quick() {
+		larges = append(larges,
+			c04Large{1000, 0, 1, 2}, c04Large{1000, 1, 2, 1}, c04Large{1000, 2, 1, 1}, c04Large{1000, 2, 2, 4}, c04Large{1000, 3, 2, 2},
+			c04Large{2000, 2, 1, 2}, c04Large{2000, 3, 2, 4})
+	} else {
+		// the model and the specification machine cost O(n) per operation on these trees:
+		// the full matrix up to 1025 keys, a thinned one above
+		for _, n := range []int{255, 512, 1000, 1025} {
+			for order := 0; order < 4; order++ {
+				larges = append(larges, c04Large{n, order, 3, 7})
+			}
+		}
+		for order := 0; order < 4; order++ {
+			larges = append(larges, c04Large{2000, order, 1 + order%2, 7})
+		}
+		larges = append(larges,
+			c04Large{3000, 0, 1, 6}, c04Large{3000, 1, 2, 6}, c04Large{3000, 2, 1, 6},
+			c04Large{5000, 2, 1, 2}, c04Large{5000, 0, 2, 4})
+	}
+	for _, L := range larges {
+		n := L.n
+		ins := make([]int, n) // insertion order of the keys 0..n-1 (spread: key = 3*rank+1, so absent keys lie between)
+		switch L.order {
+		case 0:
+			for i := range ins {
+				ins[i] = i
+			}
+		case 1:
+			for i := range ins {
+				ins[i] = n - 1 - i
+			}
+		case 2:
+			for i, lo, hi := 0, 0, n-1; i < n; i++ {
+				if i%2 == 0 {
+					ins[i] = lo
+					lo++
+				} else {
+					ins[i] = hi
+					hi--
+				}
+			}
+		default:
+			copy(ins, g.Rng.Perm(n))
+		}
+		key := func(rank int) int64 { return int64(3*rank + 1) }
+		for cmp := 0; cmp <= 1; cmp++ {
+			if L.cmps&(1<<cmp) == 0 {
+				continue // quick tier: the largest trees under one comparator each
+			}
+			g.Count(fmt.Sprintf("large:%s", []string{"sorted", "reversed", "zig-zag", "random"}[L.order]))
+			build := func() []int64 {
+				w := []int64{int64(cmp)}
+				for i, r := range ins {
+					w = append(w, c04Upsert, key(r), int64(i+1))
+				}
+				return w
+			}
+			getAll := func(w []int64) []int64 {
+				for r := 0; r < n; r++ {
+					w = append(w, c04Get, key(r), 0)
+				}
+				return append(w, c04Get, 0, 0, c04Get, key(n-1)+1, 0)
+			}
+			// intermediate look-ups: every key up to 513 keys, 96 spread keys (both ends included) above
+			getMid := func(w []int64) []int64 {
+				if n <= 513 {
+					return getAll(w)
+				}
+				for j := 0; j < 96; j++ {
+					w = append(w, c04Get, key(j*(n-1)/95), 0)
+				}
+				return append(w, c04Get, 0, 0, c04Get, key(n-1)+1, 0)
+			}
+			look := func(w []int64) []int64 { return append(w, c04Size, 0, 0, c04Traverse, 0, 0) }
+			// half
+			if L.scripts&1 != 0 {
+				w := getMid(look(build()))
+				for r := 0; r < n; r += 2 {
+					w = append(w, c04Delete, key(r), 0)
+				}
+				w = getMid(look(w))
+				for r := (n - 1) / 2 * 2; r >= 0; r -= 2 {
+					w = append(w, c04Upsert, key(r), int64(100000+r))
+				}
+				emit("large", getAll(look(w)))
+			}
+			// forward / reverse
+			for dir := 0; dir < 2; dir++ {
+				if L.scripts&(2<<dir) == 0 {
+					continue
+				}
+				w := build()
+				for i := 0; i < n; i++ {
+					r := ins[i]
+					if dir == 1 {
+						r = ins[n-1-i]
+					}
+					w = append(w, c04Delete, key(r), 0)
+					if (i+1)%(n/4) == 0 || i == n-1 {
+						w = look(w)
+						for j := 0; j < 16; j++ {
+							w = append(w, c04Get, key(j*(n-1)/15), 0)
+						}
+					}
+				}
+				w = append(w, c04Delete, key(0), 0, c04Upsert, key(n/2), 7, c04Upsert, key(0), 8, c04Upsert, key(n-1), 9)
+				emit("large", getAll(w))
+			}
+		}
+	}
+
+	// --- extreme: keys at MinInt64, MaxInt64, +-2^62, 0 and their neighbours
+	// (comparator modes 2 and 3, see c04Ext), mixed in one tree: every ordered
+	// triple of the 13 pivot keys inserted, the first deleted, every pivot
+	// looked up; then seeded random histories over the pivots.
+	pivots := []int64{500, 499, 501, 1999, 1998, 2000, 2001, 3500, 3499, 3501, 4500, 4499, 4501} // 0 -1 1 Max Max-1 Min Min+1 2^62 .. -2^62 ..
+	for cmp := int64(2); cmp <= 3; cmp++ {
+		for a := range pivots {
+			for b := range pivots {
+				for c := range pivots {
+					if a == b || b == c || a == c {
+						continue
+					}
+					w := []int64{cmp, c04Upsert, pivots[a], 1, c04Upsert, pivots[b], 2, c04Upsert, pivots[c], 3, c04Delete, pivots[a], 0}
+					for _, p := range pivots {
+						w = append(w, c04Get, p, 0)
+					}
+					emit("extreme", w)
+				}
+			}
+		}
+	}
+	for it, nx := 0, g.Pick(1500, 20000); it < nx; it++ {
+		w := []int64{int64(2 + g.Rng.Intn(2))}
+		for n := 0; n < 40; n++ {
+			k := pivots[g.Rng.Intn(len(pivots))]
+			if g.Rng.Intn(8) == 0 {
+				k = int64(g.Rng.Intn(5000)) // anywhere in the five windows
+			}
+			switch x := g.Rng.Intn(100); {
+			case x < 40:
+				w = append(w, c04Upsert, k, int64(g.Rng.Intn(1000)))
+			case x < 65:
+				w = append(w, c04Delete, k, 0)
+			case x < 92:
+				w = append(w, c04Get, k, 0)
+			case x < 96:
+				w = append(w, c04Size, 0, 0)
+			default:
+				w = append(w, c04Traverse, 0, 0)
+			}
+		}
+		emit("extreme", w)
+	}
+
 	// --- malformed / boundary: operations on the empty tree, extreme keys
 	big := int64(1) << 60 // the OCaml runner reads 63-bit integers
 	for cmp := int64(0); cmp <= 1; cmp++ {
@@ -420,5 +785,5 @@ func sortedKeys(m map[int]bool) []int {
 
 func init() {
 	register(&Prop{ID: "C04", Exec: execC04, Gen: genC04, Describe: describeC04,
-		Rule: "exhaustive, for the ascending and the descending comparator: (A) every Upsert/Delete sequence of length <= 5 (thorough 6) over keys 0..4 followed by Get of every key, final Size and Traverse; (B) every sequence of length <= 4 over all 17 operations Upsert k/Delete k/Get k/Size/Traverse, k in 0..4, observed per operation; (C) every insertion order of every subset of 0..4, then every Delete sequence of length <= 2 (thorough 3), then at most one re-Upsert, then Get of every key. random: length-300 histories over 8/16/64 keys, tree pre-filled in sorted, reversed or random order, deletes biased to present keys, lookups biased to neighbours of deleted keys. non-trivial = the history contains a Delete of a node with two children that is followed by a Get of that node's in-order successor key; distinct = distinct wire input"})
+		Rule: "exhaustive, for the ascending and the descending comparator: (A) every Upsert/Delete sequence of length <= 5 (thorough 6) over keys 0..4 followed by Get of every key, final Size and Traverse; (B) every sequence of length <= 4 over all 17 operations Upsert k/Delete k/Get k/Size/Traverse, k in 0..4, observed per operation; (C) every insertion order of every subset of 0..4, then every Delete sequence of length <= 2 (thorough 3), then at most one re-Upsert, then Get of every key; (D) every insertion order of every subset of >= 2 keys, one read (Get k, Size or Traverse; thorough two), one Delete, at most one re-Upsert, Get of every key; (E) every such insertion order, then Delete, Upsert, Delete (thorough: and Upsert) over all keys, Get of every key. random: length-300 histories over 8/16/64 keys, tree pre-filled in sorted, reversed or random order, deletes biased to present keys, lookups biased to neighbours of deleted keys. large: trees of 128..1025 keys built at random then Size and Traverse; trees of 100, 256, 257, 513, 1000, 2000 keys (thorough: also 255, 512, 1025, 3000, 5000) built in sorted, reversed, zig-zag (all three of depth = size) and random order with three scripts (delete every second key / re-upsert; delete in insertion order; delete in reverse order) observing Size, Traverse and Get of every key. extreme: keys MinInt64, MaxInt64, +-2^62, 0 and neighbours mixed in one tree (every ordered triple inserted, first deleted, all looked up; seeded random histories), both comparators. non-trivial = the history contains a Delete of a node with two children that is followed by a Get of that node's in-order successor key; distinct = distinct wire input"})
 }
